@@ -1,6 +1,6 @@
 use std::collections::{HashMap, HashSet};
 
-use crate::model::{Key, NodeId};
+use crate::model::{Key, LineId, NodeId};
 
 use super::{graph_node::GraphNode, Graph};
 
@@ -44,6 +44,16 @@ impl RefIndex {
             .unwrap_or(Vec::new())
     }
 
+    // inline link urls are relative to the directory of the note that contains them; the
+    // directory is looked up only for lines that contain links
+    fn line_ref_keys(graph: &Graph, node_id: NodeId, line_id: LineId) -> Vec<Key> {
+        let line = graph.get_line(line_id);
+        if line.ref_keys("").is_empty() {
+            return vec![];
+        }
+        line.ref_keys(&graph.node_key(node_id).parent())
+    }
+
     pub fn index_node(&mut self, graph: &Graph, node_id: NodeId) {
         match graph.graph_node(node_id) {
             GraphNode::Reference(reference) => {
@@ -57,7 +67,7 @@ impl RefIndex {
                 });
             }
             GraphNode::Section(section) => {
-                for key in graph.get_line(section.line_id()).ref_keys() {
+                for key in Self::line_ref_keys(graph, section.id(), section.line_id()) {
                     self.inline_references
                         .entry(key.clone())
                         .or_insert_with(HashSet::new)
@@ -72,7 +82,7 @@ impl RefIndex {
                 });
             }
             GraphNode::Leaf(leaf) => {
-                for key in graph.get_line(leaf.line_id()).ref_keys() {
+                for key in Self::line_ref_keys(graph, leaf.id(), leaf.line_id()) {
                     self.inline_references
                         .entry(key.clone())
                         .or_insert_with(HashSet::new)
